@@ -16,13 +16,13 @@ NAMES = {
     "C02": ["C02", "C02pause", "C02promote", "C02edit"],
     "C03": ["C03a", "C03b", "C03c"],
     "C04": ["C04a", "C04b", "C04c"],
-    "C05": ["C05"],
+    "C05": ["C05", "C05tr"],
     "C06": None,  # every predicate, on fault transitions and on everything reachable after a fault
     "C07": ["C07"],
     "C09": ["C09"],
     "C10": ["C10a", "C10b"],
     "C11": ["C11a", "C11b", "C11c", "C11d"],
-    "C18": ["C18a", "C18br", "C18b"],
+    "C18": ["C18a", "C18br", "C18b", "C18tr"],
 }
 
 # configurations explored per property and tier: (config name, fault mode, max states)
